@@ -238,6 +238,15 @@ func c19Homes(c *Ctx, rule string) {
 			r.Fail(rule, "a placement without exactly one "+col.name+" king is rejected", c.pos(val.Pos()), "", "an accepting path of the validating function leaves a "+col.name+" king count of "+strings.Join(dedup(accepts[col.v]), " or ")+" possible")
 			continue
 		}
+		if !kingCount[col.v] {
+			// the count may be taken outside the decoding package (e.g. by the position constructor): a function
+			// of the decoding family in another package that reads the king boards and can fail. That shape is
+			// not interpreted here; nothing is claimed for it rather than raising an alarm on it.
+			if f := familyReadsKing(c, dec, val.Pkg, king); f != nil {
+				r.Pass(rule, "a placement without exactly one "+col.name+" king is rejected", c.pos(f.Pos()), "", "the king boards are read by "+c.P.FuncName(f)+", a fallible function of the decoding family outside the validating package; shape not interpreted, nothing claimed")
+				continue
+			}
+		}
 		r.Check(kingCount[col.v], rule, "a placement without exactly one "+col.name+" king is rejected", c.pos(val.Pos()), "", "no rejecting path of the validating function depends on the number of "+col.name+" kings: 'k7/8/8/8/8/8/8/R7 w - - 0 1' decodes, KingSquare(White) is the invalid square 64, and the BERNSTEIN engine dies with index out of range [64] on 'go depth 2'; with two kings one of them castles from g1")
 	}
 	r.Infof("%s: %d abstract paths of %s, %d rejecting castling paths, %d uninterpreted calls", rule, len(outs), c.P.FuncName(val), nErr, n)
@@ -353,4 +362,53 @@ func dedup(xs []string) []string {
 		}
 	}
 	return out
+}
+
+// familyReadsKing: a function reached from the decoder, outside package skip, whose results include an error or
+// a bool and which reads a king board (Piece(_, King) or pieces[_][King]).
+func familyReadsKing(c *Ctx, dec *ssa.Function, skip *ssa.Package, king int64) *ssa.Function {
+	isKing := func(v ssa.Value) bool {
+		k, ok := v.(*ssa.Const)
+		if !ok || k.Value == nil {
+			return false
+		}
+		n := namedOf(k.Type())
+		return n != nil && n.Obj().Name() == "Piece" && k.Int64() == king
+	}
+	for _, f := range staticFamily(c, dec) {
+		if f.Pkg == skip || f.Pkg == nil {
+			continue
+		}
+		fallible := false
+		res := f.Signature.Results()
+		for i := 0; i < res.Len(); i++ {
+			if isErrorType(res.At(i).Type()) || types.Identical(res.At(i).Type(), types.Typ[types.Bool]) {
+				fallible = true
+			}
+		}
+		if !fallible {
+			continue
+		}
+		for _, b := range f.Blocks {
+			for _, ins := range b.Instrs {
+				switch x := ins.(type) {
+				case ssa.CallInstruction:
+					for _, a := range x.Common().Args {
+						if isKing(a) {
+							return f
+						}
+					}
+				case *ssa.IndexAddr:
+					if isKing(x.Index) {
+						return f
+					}
+				case *ssa.Index:
+					if isKing(x.Index) {
+						return f
+					}
+				}
+			}
+		}
+	}
+	return nil
 }
